@@ -24,11 +24,27 @@ theorem mem_aggInit {cfg : Cfg} {main lin : Stream → Path} {e : Ev} (h : e ∈
   · exact ⟨s, Or.inr rfl⟩
   · exact ⟨s, Or.inl rfl⟩
 
-theorem constructPre_stage {cfg : Cfg} {fs : FS} (h : J cfg fs) (hlock : fs.has .lock = true) :
+/-- the save files the model construction reads are complete -/
+def SavesOK (cfg : Cfg) (fs : FS) : Prop :=
+  fs.good .info = true ∧ ∀ c ∈ cfg.chrs, fs.good (.multimap c) = true ∧ fs.good (.save c) = true
+
+theorem savesOK_of_lock {cfg : Cfg} {fs : FS} (h : J cfg fs) (hlock : fs.has .lock = true) : SavesOK cfg fs := by
+  have hgl := h.2 .lock hlock
+  refine ⟨hgl .info (by simp [guarded]), fun c hc => ⟨?_, ?_⟩⟩
+  · exact hgl _ (by simp only [guarded, List.mem_cons, List.mem_flatMap, List.not_mem_nil, or_false]; exact Or.inr ⟨c, hc, Or.inl rfl⟩)
+  · exact hgl _ (by simp only [guarded, List.mem_cons, List.mem_flatMap, List.not_mem_nil, or_false]; exact Or.inr ⟨c, hc, Or.inr rfl⟩)
+
+theorem savesOK_frame {cfg : Cfg} {fs fs' : FS} (h : SavesOK cfg fs) (hi : fs' .info = fs .info)
+    (hm : ∀ c, fs' (.multimap c) = fs (.multimap c)) (hs : ∀ c, fs' (.save c) = fs (.save c)) : SavesOK cfg fs' := by
+  refine ⟨by simp only [FS.good, hi]; exact h.1, fun c hc => ⟨?_, ?_⟩⟩
+  · simp only [FS.good, hm]; exact (h.2 c hc).1
+  · simp only [FS.good, hs]; exact (h.2 c hc).2
+
+theorem constructPre_stage {cfg : Cfg} {fs : FS} (h : J cfg fs) (hsv : SavesOK cfg fs) :
     Good cfg fs (runActs (constructPre cfg fs) fs) ∧
       (∀ p, Tfin p = false → (runActs (constructPre cfg fs) fs).fs p = fs p) := by
   unfold constructPre
-  have hinfo : fs.good .info = true := h.2 .lock hlock .info (by simp [guarded])
+  have hinfo : fs.good .info = true := hsv.1
   have hck : ChecksOK (Act.exist .info :: evs (aggInit cfg Path.final Path.finalLin)) fs :=
     ⟨good_has hinfo, checks_evs _ _⟩
   have hev : eventsOf (Act.exist .info :: evs (aggInit cfg Path.final Path.finalLin)) = aggInit cfg Path.final Path.finalLin := by
@@ -92,16 +108,13 @@ theorem readStat_mem_chrOutputs (cfg : Cfg) (c : Chr) : Path.readStat c ∈ chrO
 theorem trStat_mem_chrOutputs (cfg : Cfg) (c : Chr) : Path.trStat c ∈ chrOutputs cfg c := by simp [chrOutputs]
 
 theorem constructChr_stage {cfg : Cfg} (rs : Bool) {fs : FS} (h : J cfg fs) {c : Chr} (hc : c ∈ cfg.chrs)
-    (hlock : fs.has .lock = true) (hnp : rs = false → fs.has (.processed c) = false) :
+    (hsv : SavesOK cfg fs) (hnp : rs = false → fs.has (.processed c) = false) :
     Good cfg fs (runActs (constructChr fixed cfg rs c fs) fs) ∧
       (runActs (constructChr fixed cfg rs c fs) fs).fs.has (.processed c) = true ∧
       (∀ p, Tcon c p = false → (runActs (constructChr fixed cfg rs c fs) fs).fs p = fs p) := by
-  have hgl := h.2 .lock hlock
-  have hinfo : fs.good .info = true := hgl .info (by simp [guarded])
-  have hmm : fs.good (.multimap c) = true :=
-    hgl _ (by simp only [guarded, List.mem_cons, List.mem_flatMap, List.not_mem_nil, or_false]; exact Or.inr ⟨c, hc, Or.inl rfl⟩)
-  have hsave : fs.good (.save c) = true :=
-    hgl _ (by simp only [guarded, List.mem_cons, List.mem_flatMap, List.not_mem_nil, or_false]; exact Or.inr ⟨c, hc, Or.inr rfl⟩)
+  have hinfo : fs.good .info = true := hsv.1
+  have hmm : fs.good (.multimap c) = true := (hsv.2 c hc).1
+  have hsave : fs.good (.save c) = true := (hsv.2 c hc).2
   unfold constructChr
   by_cases hb : (rs && fs.has (.processed c)) = true
   · simp only [hb, if_true]
@@ -159,7 +172,7 @@ theorem constructChr_stage {cfg : Cfg} (rs : Bool) {fs : FS} (h : J cfg fs) {c :
 
 
 theorem construct_loop {cfg : Cfg} (rs : Bool) (cs : List Chr) (hsub : ∀ c ∈ cs, c ∈ cfg.chrs) (nd : cs.Nodup)
-    {fs : FS} (h : J cfg fs) (hlock : fs.has .lock = true)
+    {fs : FS} (h : J cfg fs) (hsv : SavesOK cfg fs)
     (hnp : rs = false → ∀ c ∈ cs, fs.has (.processed c) = false) :
     Good cfg fs (runStages (cs.map (constructChr fixed cfg rs)) fs) ∧
       (∀ c ∈ cs, (runStages (cs.map (constructChr fixed cfg rs)) fs).fs.has (.processed c) = true) ∧
@@ -168,15 +181,15 @@ theorem construct_loop {cfg : Cfg} (rs : Bool) (cs : List Chr) (hsub : ∀ c ∈
   | nil => exact ⟨⟨rfl, h⟩, fun c hc => by simp at hc, fun _ _ => rfl⟩
   | cons c cs ih =>
     have nd' := List.nodup_cons.mp nd
-    obtain ⟨g1, p1, f1⟩ := constructChr_stage rs h (hsub c (by simp)) hlock (fun e => hnp e c (by simp))
+    obtain ⟨g1, p1, f1⟩ := constructChr_stage rs h (hsub c (by simp)) hsv (fun e => hnp e c (by simp))
     have hne : ∀ c' ∈ cs, c' ≠ c := fun c' hc' e => nd'.1 (e ▸ hc')
-    have hlock' : (runActs (constructChr fixed cfg rs c fs) fs).fs.has .lock = true := by
-      simp only [FS.has] at hlock ⊢; rw [f1 _ rfl]; exact hlock
+    have hsv' : SavesOK cfg (runActs (constructChr fixed cfg rs c fs) fs).fs :=
+      savesOK_frame hsv (f1 _ rfl) (fun _ => f1 _ rfl) (fun _ => f1 _ rfl)
     have hnp' : rs = false → ∀ c' ∈ cs, (runActs (constructChr fixed cfg rs c fs) fs).fs.has (.processed c') = false := by
       intro e c' hc'
       simp only [FS.has]; rw [f1 _ (by simp [Tcon, hne c' hc'])]
       exact hnp e c' (by simp [hc'])
-    obtain ⟨g2, p2, f2⟩ := ih (fun c' hc' => hsub c' (by simp [hc'])) nd'.2 (good_J_acts g1) hlock' hnp'
+    obtain ⟨g2, p2, f2⟩ := ih (fun c' hc' => hsub c' (by simp [hc'])) nd'.2 (good_J_acts g1) hsv' hnp'
     simp only [List.map_cons]
     obtain ⟨g, hfs⟩ := good_cons g1 g2
     refine ⟨g, ?_, ?_⟩
@@ -197,7 +210,8 @@ theorem drop_stage {cfg : Cfg} (wf : WF cfg) {fs : FS} (h : J cfg fs) :
       (∀ c ∈ cfg.chrs, (runActs (dropStage fixed cfg fs) fs).fs.has (.processed c) = false) ∧
       (∀ p, (∀ c, p ≠ .processed c) → (runActs (dropStage fixed cfg fs) fs).fs p = fs p) := by
   unfold dropStage
-  simp only [fixed, if_true]
+  have hcond : (fixed.dropProcessed && (fixed.dropAtDumpPrefix || !cfg.fromSaves)) = true := by simp [fixed]
+  rw [if_pos hcond]
   generalize hL : (cfg.chrs.filter (fun c => fs.has (.processed c))).map Path.processed = L
   have hnd : L.Nodup := by
     subst hL
